@@ -1,6 +1,7 @@
 CONSTANTS Ids = {1,2,3} Weights = {0,1,2,3} MaxLen = 4
 SPECIFICATION Spec
 INVARIANTS CanonicalOrder IndexInverse WeightsDescending LastWriteWins
+PROPERTY ReplaceNotMerge
 VIEW View
 ACTION_CONSTRAINT Emit
 CHECK_DEADLOCK FALSE
